@@ -73,6 +73,8 @@ fn signature_texts() -> Vec<String> {
                 spdx: false,
                 blank_lines: vec![1],
                 clash: false,
+                kinds: vec![],
+                extras: vec![],
             }));
         }
     }
